@@ -1,16 +1,93 @@
-//! eng-sig: see /verif/DESIGN.md section 5 and /verif/harness/ENGINE_GUIDE.md
+//! eng-sig: runtime monitors for C06 (threshold authorisation), C19 (BLS
+//! aggregation, VRF, PS signatures), C20 (group arithmetic, encodings, secret
+//! sharing, key derivation) and C12 (encrypted amounts).
+//! See /verif/DESIGN.md section 5 and /verif/harness/ENGINE_GUIDE.md.
+mod c06;
+mod common;
+
 use vmon_core::{ChildCtx, Engine, Plan, Shard, Tier};
 
 struct E;
 
+fn s(x: &[&str]) -> Vec<String> { x.iter().map(|s| s.to_string()).collect() }
+
+fn floors(x: &[(&str, u64)]) -> Vec<(String, u64)> { x.iter().map(|(k, n)| (k.to_string(), *n)).collect() }
+
+const SOUNDNESS: &str = "cryptographic soundness is only probed with the cheating strategies implemented here (wrong key, wrong message, swapped/duplicated components, single-bit perturbations, cross-instance splicing); 'no forgery exists' is out of reach (DESIGN.md section 7); inputs are sampled and boundary-weighted, never exhaustive";
+
 impl Engine for E {
     fn name(&self) -> &'static str { "eng-sig" }
 
-    fn props(&self) -> Vec<&'static str> { vec![] }
+    fn props(&self) -> Vec<&'static str> { vec!["C06"] }
 
-    fn plan(&self, _prop: &str, _tier: Tier) -> Plan { Plan::default() }
+    fn plan(&self, prop: &str, tier: Tier) -> Plan {
+        let quick = tier == Tier::Quick;
+        let mut p = Plan::default();
+        match prop {
+            "C06" => {
+                p.cases = if quick { 1500 } else { 30_000 };
+                p.timeout_s = if quick { 600 } else { 3600 };
+                p.rule = "case = one random access structure (1-5 credentials x 1-5 keys, sparse indices, thresholds 1..n and n+1) with one transaction built by a transactions::construct builder (5/8 plain, 2/8 sponsored V1 with a second access structure) or one chain update (1/8); every signer-subset scenario (exact, all, above, none, one below per credential / per account, unknown credential, unknown key, one invalid signature at/above/below threshold, swapped, wrong digest, bad length) is verified through each library entry point; evaluations = library verdicts (or constructed values) compared with the harness predicate / recomputed value; distinct_nontrivial = cases with at least one accepting and three rejecting scenarios (updates: every case)".into();
+                p.assumptions = s(&[
+                    "ed25519-dalek `VerifyingKey::verify` decides validity of a single signature (the same primitive the library uses); sha2 computes SHA-256",
+                    "the harness predicate `policy` (c06.rs) is the statement of the property; on signature maps where the property text and the node semantics differ (a supplied credential below its own threshold while enough others are satisfied) nothing is demanded",
+                    "header / signature-map / update-instruction byte layouts are re-implemented by the harness from the field documentation; payload bytes are taken from the library's own `to_bytes(payload)` (payload encodings belong to C05)",
+                    "energy = 60 + payload size + 100 * signatures + the transaction-specific constants documented in transactions::cost; V1: +2, sponsor: +32 + 100 * sponsor signatures",
+                    "the Rust library has no update-instruction verifier: for chain updates only the signing side is judged",
+                    SOUNDNESS,
+                ]);
+                let m = if quick { 1 } else { 20 };
+                p.floors = floors(&[
+                    ("accept.expected", 30_000 * m),
+                    ("reject.expected", 200_000 * m),
+                    ("entry.verify_data_signature", 90_000 * m),
+                    ("entry.verify_signature_transaction_sign_hash", 70_000 * m),
+                    ("entry.AccountTransaction::verify_transaction_signature", 70_000 * m),
+                    ("entry.verify_signature_transaction_sign_hash_v1", 14_000 * m),
+                    ("entry.AccountTransactionV1::verify_transaction_signature", 17_000 * m),
+                    ("scenario.v0.exact", 4_000 * m),
+                    ("scenario.v0.all", 3_000 * m),
+                    ("scenario.v0.cred_below", 4_000 * m),
+                    ("scenario.v0.account_below", 4_000 * m),
+                    ("scenario.v0.unknown_credential", 4_000 * m),
+                    ("scenario.v0.unknown_key", 4_000 * m),
+                    ("scenario.v0.invalid_at", 4_000 * m),
+                    ("scenario.v0.invalid_above", 4_000 * m),
+                    ("scenario.v0.invalid_below", 2_000 * m),
+                    ("scenario.v0.swapped", 4_000 * m),
+                    ("scenario.v0.wrong_digest", 4_000 * m),
+                    ("scenario.v0.bad_length", 4_000 * m),
+                    ("scenario.v0.keyset_shrunk", 3_000 * m),
+                    ("scenario.v1.accept", 3_000 * m),
+                    ("scenario.v1.reject", 10_000 * m),
+                    ("structure.unsatisfiable", 700 * m),
+                    ("perturb.header", 15_000 * m),
+                    ("perturb.payload", 15_000 * m),
+                    ("perturb.signature", 45_000 * m),
+                    ("perturb.key", 20_000 * m),
+                    ("perturb.header_v1", 3_500 * m),
+                    ("perturb.payload_v1", 3_500 * m),
+                    ("v1.roles_swapped", 1_000 * m),
+                    ("construct.checked", 4_000 * m),
+                    ("construct.v1.checked", 1_500 * m),
+                    ("construct.block_item_hash", 4_000 * m),
+                    ("update.instruction.checked", 700 * m),
+                    ("update.signer.some", 1_000 * m),
+                    ("update.signer.none", 1_800 * m),
+                    ("undemanded.partial_credential", 4_000 * m),
+                ]);
+            }
+            _ => {}
+        }
+        p
+    }
 
-    fn run_child(&self, _ctx: &ChildCtx, out: &mut Shard) { out.inconclusive.push("not implemented".into()); }
+    fn run_child(&self, ctx: &ChildCtx, out: &mut Shard) {
+        match ctx.prop.as_str() {
+            "C06" => c06::run(ctx, out),
+            _ => out.inconclusive.push("unknown property".into()),
+        }
+    }
 }
 
 fn main() { vmon_core::main_engine(&E) }
